@@ -1147,6 +1147,16 @@ fn hang_binop_expression(
                 && binop.is_right_associative() == top_binop.is_right_associative();
             let is_right_associative = binop.is_right_associative();
 
+            // The operands of this binop must be formatted in the context of a binary expression (and not
+            // in the context of the whole expression), otherwise required parentheses are removed
+            // [e.g. `(-X) ^ Y`, `(X :: number) < Y`]
+            let lhs_context = if let BinOp::Caret(_) = binop {
+                ExpressionContext::BinaryLHSExponent
+            } else {
+                ExpressionContext::UnaryOrBinary
+            };
+            let rhs_context = ExpressionContext::UnaryOrBinary;
+
             let test_shape = if same_op_level {
                 shape
             } else {
@@ -1192,7 +1202,7 @@ fn hang_binop_expression(
                                 },
                                 lhs_shape,
                                 lhs_range,
-                                expression_context,
+                                lhs_context,
                             ),
                             if contains_comments(&*rhs) {
                                 hang_binop_expression(
@@ -1201,7 +1211,7 @@ fn hang_binop_expression(
                                     binop,
                                     shape,
                                     lhs_range,
-                                    expression_context,
+                                    rhs_context,
                                 )
                             } else {
                                 format_expression_internal(
@@ -1220,7 +1230,7 @@ fn hang_binop_expression(
                                     binop.clone(),
                                     shape,
                                     lhs_range,
-                                    expression_context,
+                                    lhs_context,
                                 )
                             } else {
                                 let context = if let BinOp::Caret(_) = binop {
@@ -1236,7 +1246,7 @@ fn hang_binop_expression(
                                 if same_op_level { top_binop } else { binop },
                                 rhs_shape,
                                 lhs_range,
-                                expression_context,
+                                rhs_context,
                             ),
                         ),
                     };
@@ -1255,7 +1265,7 @@ fn hang_binop_expression(
                             binop.to_owned(),
                             shape,
                             lhs_range,
-                            expression_context,
+                            lhs_context,
                         )
                     } else {
                         let context = if let BinOp::Caret(_) = binop {
@@ -1273,7 +1283,7 @@ fn hang_binop_expression(
                             binop,
                             shape,
                             lhs_range,
-                            expression_context,
+                            rhs_context,
                         )
                     } else {
                         format_expression_internal(
@@ -1437,13 +1447,19 @@ fn format_hanging_expression_(
         }
         Expression::BinaryOperator { lhs, binop, rhs } => {
             // Don't format the lhs and rhs here, because it will be handled later when hang_binop_expression calls back for a Value
+            // If the lhs is the base of an exponent, its parentheses must be kept [e.g. `(-X) ^ Y`]
+            let lhs_context = if let BinOp::Caret(_) = binop {
+                ExpressionContext::BinaryLHSExponent
+            } else {
+                ExpressionContext::UnaryOrBinary
+            };
             let lhs = hang_binop_expression(
                 ctx,
                 *lhs.to_owned(),
                 binop.to_owned(),
                 shape,
                 lhs_range,
-                ExpressionContext::UnaryOrBinary,
+                lhs_context,
             );
 
             let current_shape = shape.take_last_line(&lhs) + 1; // 1 = space before binop
@@ -1457,7 +1473,7 @@ fn format_hanging_expression_(
                 binop.to_owned(),
                 singleline_shape,
                 None,
-                ExpressionContext::Standard,
+                ExpressionContext::UnaryOrBinary,
             );
 
             // Examine the last line to see if we need to hang this binop, or if the precedence levels match
@@ -1476,7 +1492,7 @@ fn format_hanging_expression_(
                     binop.to_owned(),
                     hanging_shape,
                     None,
-                    ExpressionContext::Standard,
+                    ExpressionContext::UnaryOrBinary,
                 )
                 .update_leading_trivia(FormatTriviaType::Replace(Vec::new()));
             }
